@@ -45,10 +45,23 @@ CLAIMS = {
              'on that edge and ring-invariant parameters; exactly the earlier event is flagged left; collapsed edges create nothing; nothing reads ring '
              'orientation. Equality of results across representations is not decided.',
         note=TB, design='4/C07'),
+    'C08': dict(level='proof', technique='homogeneity (degree) inference over all float comparisons and coordinate constructions in MIR paths',
+        text='Decides soundly and completely the power-of-two scaling clause: every float comparison reachable from the API relates quantities of '
+             'equal degree (or 0/inf) and every constructed/stored coordinate has degree 1, hence every operation and branch commutes exactly with '
+             'multiplication by 2^k. Translation, mirroring, transposition and quarter turns are NOT decided (the sweep is asymmetric by design).',
+        note='Trusted: degree table of external callees (Float::min/max/abs, Into<f64>, next_after, robust::orient2d 1,1,1->2 with data-scaled error '
+             'bounds), IEEE-754 exactness of 2^k scaling absent overflow/underflow; rustc MIR; extractor and rule code. Only the scaling clause is claimed.',
+        design='4/C08'),
     'C09': dict(level='other', technique=TECH_PROV + '; comparison-atom table of the shortcut',
         text='Decides that each shortcut fires only under its geometric precondition: box accumulation (4 updates, operand routing), strict '
              'disjointness test (16 rows), early break iff Intersection beyond min(max.x) / Difference beyond subject max.x, event recorded before break.',
         note=TB + 'Equality of results with/without far parts is a relation between two runs and is not decided.', design='4/C09'),
+    'C10': dict(level='other', technique='width-specific-code inventory with control; sibling table of the two NextAfter impls; provenance of orient2d arguments; degree inference; type-level witnesses',
+        text='Decides that both instantiations run one generic body (no float-width casts, NumCast/size_of/TypeId/epsilon calls), that the two '
+             'nextafter impls are mirror images stepping to +/-INFINITY of their own type, that signed_area feeds (x,y) of p0,p1,p2 to orient2d in '
+             'order, that no precision-specific constant exists (R-degree) and that all pairings type-check for f32 and f64. Accuracy of f32 results and '
+             'coordinate-wise equality with f64 are numeric and not decided.',
+        note=TB, design='4/C10'),
     'C12': dict(
         level='proof', technique='effect/state inventory over type-checked MIR (rustc_private driver) + call-graph reachability',
         text='Whole property, modulo the trusted base: every obligation family (operands behind & to Freeze types, unsafe confined '
@@ -68,11 +81,25 @@ CLAIMS = {
              'twin typing) and the recomputation protocol; found F1 and F2 on the pinned tree (both repaired). The choice of predecessor (float order) '
              'is not decided.',
         note=TB, design='4/C14'),
+    'C15': dict(level='other', technique='exhaustive sign-atom table of SweepEvent::cmp (1728 configurations, both argument orders) vs stated priority; path-signature symmetry of compare_segments',
+        text='Decides: cmp never returns Equal; over every configuration of coordinate-difference signs, left flags, presence of other events, '
+             'orientation sign and operands, cmp(a,b) is the opposite of cmp(b,a) and follows the stated priority, except on the documented residue (same '
+             'point, kind, collinear, operand); compare_segments returns Equal only under Rc::ptr_eq and is one decision function of (older, newer) '
+             'negated exactly when swapped; the sweep line, heap and bubble sort consume these orders. Transitivity and agreement with the vertical order '
+             'of real configurations are not decided.',
+        note=TB + 'The model of is_below / orient2d sign under argument permutation is checked against the code.', design='4/C15'),
     'C16': dict(level='other', technique=TECH_TABLE + ' with a symbolic model of the local events vector',
         text='Decides the return-code / division-request / edge-type table of possible_intersection (28 cases), the same-point rule (N2 is the listed '
              'known finding), clamping, endpoint guards and the parameter-range structure of intersection_impl. Disjointness classification and accuracy '
              'are numeric and not decided.',
         note=TB, design='4/C16'),
+    'C17': dict(level='other', technique='path tables of size bookkeeping and comparator direction; inventory of moves in lookup code; mirror-signature comparison of sibling bodies',
+        text='Decides: length counters change by exactly one exactly on the paths that add/remove/yield an element; code reachable from the &self '
+             'lookups moves only Box<Node>/Option<Box<Node>> (never node contents, keys or values) and frees no node, so references handed out stay valid; '
+             'comparator is called (query, &node.key) with Less->left / Greater->right in next/prev/insert/splay; next/next_back, min/max, pop_left/right, the '
+             'two arms of splay are mirror images; SplaySet delegates to the like-named SplayTree method. Equivalence with a reference sorted map over all '
+             'histories is not decided.',
+        note=TB, design='4/C17'),
     'C18': dict(level='other', technique='call-graph SCC over resolved callees and drop glue; typestate of node drops on MIR paths',
         text='Decides that no recursion is reachable from the splay/boolean API and that the recursive drop glue of Node only runs on nodes whose '
              'children were taken: owners have Drop impls that empty their field, the teardown loop is proved shallow, 15 of 21 node-drop sites are '
